@@ -525,3 +525,47 @@ func (r *SortReg) Emit(sb *strings.Builder, usedFuns map[string]bool) {
 		}
 	}
 }
+
+// usedIn: the declared function symbols occurring in text, closed under the symbols their axioms mention.
+func (r *SortReg) usedIn(text string) map[string]bool {
+	used := map[string]bool{}
+	var work []string
+	mark := func(t string) {
+		for _, n := range r.forder {
+			if used[n] {
+				continue
+			}
+			if containsSymbol(t, smtName(n)) {
+				used[n] = true
+				work = append(work, n)
+			}
+		}
+	}
+	mark(text)
+	for len(work) > 0 {
+		n := work[len(work)-1]
+		work = work[:len(work)-1]
+		for _, a := range r.axioms[n] {
+			mark(a)
+		}
+	}
+	return used
+}
+
+// containsSymbol: sym occurs in t delimited by SMT-LIB token boundaries.
+func containsSymbol(t, sym string) bool {
+	for i := 0; ; {
+		j := strings.Index(t[i:], sym)
+		if j < 0 {
+			return false
+		}
+		j += i
+		before := j == 0 || strings.ContainsRune(" ()\n\t", rune(t[j-1]))
+		end := j + len(sym)
+		after := end >= len(t) || strings.ContainsRune(" ()\n\t", rune(t[end]))
+		if before && after {
+			return true
+		}
+		i = j + 1
+	}
+}
